@@ -359,3 +359,16 @@ Proof.
   destruct (queue_cap_invariant eps w ops Hw evs Hl e t q qa Hin Ha Hh Hq HQ Hpl) as [_ Hb].
   specialize (Hb d Hd). specialize (Hcap q qa d HQ). fold s' in Hb. lia.
 Qed.
+
+(* the two definitions the statements are phrased with, spelled out *)
+Lemma balanced_unfold s s' evs :
+  balanced s s' evs <->
+  hlog s' = evs ++ hlog s /\
+  forall q d,
+    zsum (ev_signed s q d) evs <= amt (share_of s' q) d - amt (share_of s q) d <= zsum (ev_pos s q d) evs /\
+    (d = DCpu \/ d = DMem -> amt (share_of s' q) d - amt (share_of s q) d = zsum (ev_signed s q d) evs).
+Proof. reflexivity. Qed.
+
+Lemma world_ok_unfold w :
+  world_ok w <-> heap_ok (heap (w_sess w)) /\ be_empty (heap (w_sess w)) /\ no_evict (w_sess w).
+Proof. reflexivity. Qed.
